@@ -3,14 +3,17 @@
    Specification: the second half of that file - the list of live subscriptions in the order made;
    a permanent one lives until its own token is unsubscribed (or unsubscribe_all/reset), a per-call or
    in-plan one until its in-plan unsubscribe or the end of its call; every emitted document goes once to
-   every live subscription asking for its kind.  Observations ([obs]) are the returned tokens, and per call
+   every subscription that is live WHEN THE DOCUMENT IS EMITTED and asks for its kind (a callback that
+   unsubscribes somebody, or subscribes somebody new, while the document is being delivered affects the
+   following documents only).  Observations ([obs]) are the returned tokens, and per call
    the emitted documents each with the callables invoked (and whether they raised), the tokens handed
    to the plan, and the call's outcome. *)
 From BV Require Import Base.Prelude Engine.Dispatcher Proofs.Dispatcher.
 
 (* For EVERY history of subscribe / unsubscribe / set-policy / call(per-call subs, plan with in-plan
    subscribe and unsubscribe) / unsubscribe_all / reset, of any length, with any callables (raising or
-   not, equal or not): unless the history is in finding class C18-a, what the code's model delivers is
+   not, equal or not, and possibly unsubscribing tokens or subscribing further callables from inside the
+   callback while a document is being delivered): unless the history is in finding class C18-a, what the code's model delivers is
    exactly what the live-subscription specification says - same tokens, same documents, same callables
    in the same order, same outcomes.  Nothing else is delivered, nothing is missed. *)
 Theorem C18_live_subscriptions :
@@ -33,15 +36,18 @@ Qed.
 Print Assumptions C18_a_refuted.
 
 (* The specification itself says what the property says (so that the equality above means something):
-   after any call made between calls, every live subscription is a permanent one that was live before
-   (per-call and in-plan ones are gone, nothing made during the call persists), and every permanent
-   subscription whose token the plan did not unsubscribe is still live. *)
+   after any call made between calls no temporary (per-call / in-plan) subscription is live any more, and
+   every subscription that was live before is still live provided its own token is not unsubscribed - by an
+   'unsubscribe' message of the plan or from inside a callback of a live, per-call or in-plan subscription. *)
 Theorem C18_spec_keeps_and_drops :
   forall s subs plan,
     (forall x, In x (live s) -> s_temp x = false) ->
     let s' := fst (sp_run_call s subs plan) in
-    (forall x, In x (live s') -> s_temp x = false /\ In x (live s)) /\
-    (forall x, In x (live s) -> unsub_free (s_tok x) plan -> In x (live s')).
+    (forall x, In x (live s') -> s_temp x = false) /\
+    (forall x, In x (live s) -> unsub_free (s_tok x) plan -> plan_hands_off (s_tok x) plan ->
+       (forall y, In y (live s) -> hands_off (s_tok x) (s_fn y)) ->
+       (forall n fs f, In (n, fs) subs -> In f fs -> hands_off (s_tok x) f) ->
+       In x (live s')).
 Proof. exact spec_call_keeps_and_drops. Qed.
 Print Assumptions C18_spec_keeps_and_drops.
 
